@@ -209,6 +209,9 @@ impl RustDocument {
             self.target_namespaces.push(tns.clone());
             self.namespaces.push(tns.clone());
             self.current_target_namespace = Some(tns);
+        } else if let Some(tns) = self.target_namespaces.iter().find(|ns| ns.namespace == namespace) {
+            // switching (back) to a target namespace that is known already
+            self.current_target_namespace = Some(tns.clone());
         }
         #[cfg(feature = "verif")]
         crate::verif::switch_tns(
